@@ -390,6 +390,8 @@ def banner_tabulation(ctx, report, c, p, RULE='C07.R6'):
         ('SSH-2.0-OpenSSH_8.9\r\n', '', ((2, 0), 'OpenSSH_8.9', None)),
         ('SSH-1.99-srv\n', '', ((1, 99), 'srv', None)),
         ('SSH-2.0-srv two words\r\n', '\x00\x00\x01\x0c', ((2, 0), 'srv', 'two words')),
+        # the limit of 255 bytes is a limit of the line: a buffer that holds the line and the first packets after it is fine
+        ('SSH-2.0-OpenSSH_8.9\r\n', '\x00\x00\x01\x7c\x0b\x14' + 'k' * 400, ((2, 0), 'OpenSSH_8.9', None)),
         # the first SP separates software version and comments; everything after it is the comment, blanks included
         ('SSH-2.0-srv  built with spaces\r\n', '', ((2, 0), 'srv', ' built with spaces')),
         ('SSH-2.0-srv \r\n', '', ((2, 0), 'srv', '')),
